@@ -62,6 +62,14 @@ CLAIMED["C06"] = dict(
     note="Trusted: the reference group-by (40 lines), the harness' FASTA/JSON-header reader (encoding/json). The kernel file system is real and fault-free here. The obidemerge round trip is checked by the reference model only indirectly (merged maps are exact).",
 )
 
+CLAIMED["C13"] = dict(
+    level="exploration",
+    design="DESIGN.md 4 (C13)",
+    technique="deterministic simulation of the real obiclean main (child processes) with sub-statement scheduling points splitting unsynchronised read-modify-write sequences; run-against-run comparison with a non-preempted 2-worker reference and a brute-force one-difference graph",
+    text="Generated data sets (samples x stars and chains of one-difference variants, abundance ties) are cleaned by the real obiclean main under seeded schedules with dense yields inside obiclean/graph.go (x.f++ on shared nodes becomes load / scheduling point / store), for worker counts 1..8, distances 1..3, ratios and -H; every obiclean_* annotation must equal that of a 2-worker run without preemption, and for the default distance and ratio the status, head flag and mutations must match an independent brute-force edit-distance-one graph.",
+    note="Trusted: the brute-force one-difference test (15 lines), the lost-update model of an unsynchronised increment (DESIGN.md 3.3). Weights are compared run against run, not re-derived.",
+)
+
 PENDING = {
 }
 
